@@ -83,3 +83,8 @@ pub fn mocks_entry(pid: &Pubkey, accounts: &[AccountInfo], data: &[u8]) -> Progr
         Err(_) => Err(ProgramError::Custom(PANIC_CODE)),
     }
 }
+
+/// A foreign program that accepts anything and does nothing.
+pub fn noop_entry(_pid: &Pubkey, _accounts: &[AccountInfo], _data: &[u8]) -> ProgramResult {
+    Ok(())
+}
